@@ -69,7 +69,7 @@ package rangeplugin
 //@   modifies everything
 // (opening the database and loading the rows cannot reach the allocator just created)
 //@   preserves elems(ipRangeStart), elems(ipRangeEnd), p.allocator, p.leasedb, alloc_ok, outst(p.allocator), poollo(p.allocator), poolhi(p.allocator), v4pool(p.allocator)
-//@   ensures[C02:start-up-re-marks-every-stored-lease] ret1 == nil ==> (ret0 != nil && alloc_ok - old(alloc_ok) == len(p.Recordsv4))
+//@   ensures[C02,C03:start-up-re-marks-every-stored-lease] ret1 == nil ==> (ret0 != nil && alloc_ok - old(alloc_ok) == len(p.Recordsv4))
 //@   ensures[C02,internal:pool-is-the-configured-range] ret1 == nil ==> (poollo(p.allocator) == zext(128, v4of(ipRangeStart)) && poolhi(p.allocator) == zext(128, v4of(ipRangeEnd)))
 //@   loop 1: invariant p.allocator != nil
 //@   loop 1: invariant p.leasedb != nil
@@ -77,14 +77,14 @@ package rangeplugin
 // the pool is the configured range; every record visited so far is re-marked: its address is an
 // outstanding block of the pool, and the addresses re-marked so far are pairwise different
 //@   loop 1: invariant v4pool(p.allocator) && poollo(p.allocator) == zext(128, v4of(ipRangeStart)) && poolhi(p.allocator) == zext(128, v4of(ipRangeEnd))
-//@   loop 1: invariant[C02:re-marked-addresses-are-outstanding] forall k string: (has(p.Recordsv4, k) && iterseen(k)) ==> (outst(p.allocator)[rkey(p.Recordsv4[k])] && \
+//@   loop 1: invariant[C02,C03:re-marked-addresses-are-outstanding] forall k string: (has(p.Recordsv4, k) && iterseen(k)) ==> (outst(p.allocator)[rkey(p.Recordsv4[k])] && \
 //@       poollo(p.allocator) <= rkey(p.Recordsv4[k]) && rkey(p.Recordsv4[k]) <= poolhi(p.allocator))
-//@   loop 1: invariant[C02:re-marked-addresses-are-distinct] forall k1 string: forall k2 string: (has(p.Recordsv4, k1) && has(p.Recordsv4, k2) && iterseen(k1) && iterseen(k2) && k1 != k2) ==> \
+//@   loop 1: invariant[C02,C03:re-marked-addresses-are-distinct] forall k1 string: forall k2 string: (has(p.Recordsv4, k1) && has(p.Recordsv4, k2) && iterseen(k1) && iterseen(k2) && k1 != k2) ==> \
 //@       rkey(p.Recordsv4[k1]) != rkey(p.Recordsv4[k2])
 //@   loop 1: invariant dbmirror(&p)
 //@   loop 1: invariant !held(mu(&p)) && !rheld(mu(&p))
 //@   loop 1: invariant p.Recordsv4 != nil
-//@   loop 1: invariant alloc_ok - old(alloc_ok) == itercount()
+//@   loop 1: invariant[C02,C03] alloc_ok - old(alloc_ok) == itercount()
 
 //@ func (*PluginState).Handler4
 //@   implements handler.Handler4
